@@ -101,9 +101,14 @@ mut("own-H2-harmless-lock-and-copy-out-of-cache", [],
      ("pytorch_wavelets/dtcwt/coeffs.py", "COEFF_CACHE = {}\n", "import threading\nCOEFF_CACHE = {}\n_LOCK = threading.Lock()\n")])
 
 mut("own-H3-harmless-module-attribute-cache", [],
-    "HARMLESS control: DWTForward keeps the integer mode code on the module after the first call (module __dict__ changes, results do not); must NOT alarm",
+    "HARMLESS control: DWTForward keeps (mode, integer code) as one tuple attribute on the module after the first call (module __dict__ changes, results do not); must NOT alarm. (A first version of this control set two attributes one after the other; the C15/C16 checks rightly reported the race - a second thread saw the first attribute without the second and raised AttributeError.)",
     [("pytorch_wavelets/dwt/transform2d.py", "        yh = []\n        ll = x\n        mode = lowlevel.mode_to_int(self.mode)\n\n        # Do a multilevel transform\n        for j in range(self.J):\n            # Do 1 level of the transform\n            ll, high = lowlevel.AFB2D.apply(",
-      "        yh = []\n        ll = x\n        if getattr(self, '_mode_int', None) is None or self._mode_for != self.mode:\n            self._mode_int = lowlevel.mode_to_int(self.mode)\n            self._mode_for = self.mode\n        mode = self._mode_int\n\n        # Do a multilevel transform\n        for j in range(self.J):\n            # Do 1 level of the transform\n            ll, high = lowlevel.AFB2D.apply(")])
+      "        yh = []\n        ll = x\n        c = getattr(self, '_mode_cache', None)\n        if c is None or c[0] != self.mode:\n            c = self._mode_cache = (self.mode, lowlevel.mode_to_int(self.mode))\n        mode = c[1]\n\n        # Do a multilevel transform\n        for j in range(self.J):\n            # Do 1 level of the transform\n            ll, high = lowlevel.AFB2D.apply(")])
+
+mut("own-H4-harmless-dtype-flip-with-finally", [],
+    "HARMLESS control: the default-dtype flip of own-M6 done properly with try/finally; a fault inside the protected block must run the finally clause, so nothing leaks and nothing may alarm",
+    [("pytorch_wavelets/dwt/lowlevel.py", "    h0 = np.array(h0[::-1]).ravel()\n    h1 = np.array(h1[::-1]).ravel()\n    t = torch.get_default_dtype()\n    h0 = torch.tensor(h0, device=device, dtype=t).reshape((1, 1, -1))\n    h1 = torch.tensor(h1, device=device, dtype=t).reshape((1, 1, -1))\n    return h0, h1",
+      "    t = torch.get_default_dtype()\n    torch.set_default_dtype(torch.float64)   # build in full precision, then cast\n    try:\n        h0 = torch.tensor(np.array(h0[::-1]).ravel(), device=device)\n        h1 = torch.tensor(np.array(h1[::-1]).ravel(), device=device)\n        h0 = h0.reshape((1, 1, -1)).to(t)\n        h1 = h1.reshape((1, 1, -1)).to(t)\n    finally:\n        torch.set_default_dtype(t)\n    return h0, h1")])
 
 only = sys.argv[1:]
 for name, breaks, needs, edits in MUTS:
